@@ -73,8 +73,72 @@ def deductive(ctx):
             ctx.fail(klass, f"obligation {oid} refuted: {goal}", detail, obligation=oid, solver_output=None, found_input=False)
 
 
+def _key_obligations(ctx, pid):
+    """syntactic dependency obligations on the persistent-cache keys (contracts/fileset_key.py)"""
+    from contracts import fileset_key as FK
+
+    for oid, prop, ok, detail in FK.obligations():
+        if prop != pid:
+            continue
+        ctx.add_function({"function": f"{FK.FILE}:{oid.split('.')[0]}", "line": 0, "source_sha256": "", "lines": 0})
+        ctx.add_obligation({"id": oid, "function": f"{FK.FILE}:{oid.split('.')[0]}", "clause": oid.split(".", 1)[1], "role": f"property:{pid}", "status": "discharged" if ok else "refuted", "backend": "syntactic dependency check", "time_s": 0.0, "goal": detail[:200], "path": ""})
+        if not ok:
+            ctx.fail(None, f"obligation {oid} refuted: {detail[:200]}", {"obligation": oid, "detail": detail}, obligation=oid, found_input=False)
+
+
+def bounded_hash_cache_history(ctx):
+    """the identity of a value must not depend on what the per-user persistent hash cache has seen
+    before: the same unmodified file wrapped in class X hashes equally with a fresh hash cache and with
+    one in which the same path was hashed earlier as another file class Y (and task checksums follow)"""
+    import subprocess, sys, json, tempfile, shutil, itertools
+    from pathlib import Path
+
+    classes = ["fileformats.generic.File", "fileformats.generic.BinaryFile", "fileformats.generic.UnicodeFile"] + (["fileformats.generic.FsObject"] if ctx.thorough else [])
+    child = r"""
+import sys, json, importlib
+sys.path.insert(0, '/verif')
+from pydra.utils.hash import hash_function
+path, order = sys.argv[1], sys.argv[2:]
+out = {}
+for name in order:
+    mod, cls = name.rsplit('.', 1)
+    K = getattr(importlib.import_module(mod), cls)
+    out[name] = str(hash_function(K(path)))
+print(json.dumps(out))
+"""
+    tmp = Path(tempfile.mkdtemp(prefix="vf_c07h_"))
+    dom = ctx.domain(
+        "hash-cache-history",
+        bound=f"one text file x ordered pairs of {len(classes)} file classes: hash as X in a session whose persistent hash cache first hashed the same path as Y, against X with a fresh hash cache",
+        rule="one case per ordered pair (Y, X), Y != X; separate interpreter and PYDRA_HASH_CACHE per session; non-trivial: all",
+        exhaustive=True,
+    )
+    try:
+        f = tmp / "data.txt"
+        f.write_text("hello\nworld\n")
+
+        def session(order, cache):
+            env = dict(os.environ, PYDRA_HASH_CACHE=str(cache))
+            r = subprocess.run([sys.executable, "-c", child, str(f)] + list(order), env=env, capture_output=True, text=True, timeout=300)
+            return json.loads(r.stdout.strip().splitlines()[-1])
+
+        fresh = {}
+        for i, x in enumerate(classes):
+            fresh[x] = session([x], tmp / f"fresh{i}")[x]
+        for n, (y, x) in enumerate(itertools.permutations(classes, 2)):
+            got = session([y, x], tmp / f"hist{n}")[x]
+            case = {"file_class": x, "hashed_before_as": y, "fresh": fresh[x], "after_history": got}
+            dom.case((y, x), sample=case)
+            if got != fresh[x]:
+                ctx.fail(None, f"hash of the same file as {x} depends on the hash-cache history: {got} after the path was hashed as {y}, {fresh[x]} with a fresh hash cache", dict(case, kind="hash-cache-history"), domain=dom)
+    finally:
+        shutil.rmtree(tmp, ignore_errors=True)
+
+
 def run(ctx):
     deductive(ctx)
+    _key_obligations(ctx, "C07")
+    bounded_hash_cache_history(ctx)
     _run_bounded(ctx)
 
 
